@@ -56,6 +56,8 @@ def execute(spec):
     viol = r["c27"]
     for v in viol:
         stats["violations_" + v["monitor"]] = stats.get("violations_" + v["monitor"], 0) + 1
+    if viol:
+        stats[r["family"] + "_systems_with_violation"] = 1
     return {
         "violations": viol,
         "stats": stats,
